@@ -408,7 +408,9 @@ class Histogram1D(ObjectWithBinning, HistogramBase):
     ) -> None:
         # TODO: Unify with HistogramBase
         values_array, array_mask = extract_1d_array(values, dropna=dropna)
-        if self._binning.is_adaptive() and values_array.size:
+        if not values_array.size:
+            return
+        if self._binning.is_adaptive():
             map = self._binning.force_bin_existence(values_array)
             self._reshape_data(self._binning.bin_count, map)
         weights_array = extract_weights(weights, array_mask=array_mask)
